@@ -4,22 +4,23 @@ import Cqos.Facts.Defs
   goroutines or called by the user (`main`, `loop`, `loopUntimeouted`, `transfer`, the handlers
   of the simplified disciplines, `Stop`, `GracefulStop`, `Release`, `AddInput`, `RemoveInput`):
   the steppers call the functions *inside* them one at a time and the step machines of
-  Cqos/Sched.lean, Join.lean, Limit.lean encode how these glue functions compose them.  The
-  table `callseq` (regenerated from /repo on every run) holds, for each of them, the calls made
-  through the receiver (with their argument text), channel operations, `time.*` calls and the
-  control skeleton, in source order; the theorems below pin it to the composition the machines
-  assume.  A change of the glue (a reordered call, another argument, an extra branch) breaks
-  the obligation of the properties that rely on that composition; the black-box scenarios then
-  look for a failing input.
+  Cqos/Sched.lean, Join.lean, Limit.lean, Simple.lean, SimpleV1.lean encode how these glue
+  functions compose them.  The table `callseq` (regenerated from /repo on every run) holds, for
+  each of them, the calls made through the receiver (with their argument text), channel
+  operations, `time.*` calls and the control skeleton, in source order, with local variables
+  renamed `$1, $2, …` in order of first appearance; the theorems below pin it to the
+  composition the machines assume.  A change of the glue (a reordered call, another argument,
+  an extra branch) breaks the obligation of the properties that rely on that composition; the
+  black-box scenarios then look for a failing input.
 -/
 namespace Cqos.Facts
 
 def gluePrioV2Expected : List (String × String × String × List String) := [
-  ("v2/priority", "Discipline", "Release", ["dsc.feedback <- priority"]),
-  ("v2/priority", "Discipline", "main", ["dsc.interrupter.Stop()", "if err != nil", "dsc.loop()", "dsc.err <- err"]),
-  ("v2/priority", "Discipline", "loop", ["dsc.waitZeroActual()", "for", "dsc.base()", "if err != nil", "return", "if processed == 0", "if dsc.isDrainedInputs()", "dsc.isDrainedInputs()", "return", "time.Sleep(defaultIdleDelay)", "dsc.getLimitedFeedback()"]),
+  ("v2/priority", "Discipline", "Release", ["dsc.feedback <- $1"]),
+  ("v2/priority", "Discipline", "main", ["dsc.interrupter.Stop()", "if $1 != nil", "dsc.loop()", "dsc.err <- $1"]),
+  ("v2/priority", "Discipline", "loop", ["dsc.waitZeroActual()", "for", "dsc.base()", "if $2 != nil", "return", "if $1 == 0", "if dsc.isDrainedInputs()", "dsc.isDrainedInputs()", "return", "time.Sleep(defaultIdleDelay)", "dsc.getLimitedFeedback()"]),
   ("v2/priority/simple", "Discipline", "main", ["for", "dsc.handler()"]),
-  ("v2/priority/simple", "Discipline", "handler", ["for", "dsc.priority.Output()", "dsc.opts.Handle(prioritized.Item)", "dsc.priority.Release(prioritized.Priority)"])
+  ("v2/priority/simple", "Discipline", "handler", ["for", "dsc.priority.Output()", "dsc.opts.Handle($1.Item)", "dsc.priority.Release($1.Priority)"])
 ]
 
 /-- v2 priority: `loop` = deferred `waitZeroActual`; repeat `base`, error exit, exit test `processed == 0 && isDrainedInputs`, `getLimitedFeedback`; simplified handler: `Handle` then `Release` -/
